@@ -124,7 +124,7 @@ func c02R1R2(p *core.Prog, r *core.Report) {
 			fname := p.FuncName(fn)
 			isResync := func(in ssa.Instruction) bool {
 				if c, ok := in.(ssa.CallInstruction); ok {
-					if g := core.CalleeFn(c); g != nil && g.Name() == "updateDesc" && g.Signature.Recv() != nil && core.NamedOf(g.Signature.Recv().Type()) == im.t {
+					if g := core.CalleeFn(c); g != nil && canon(g) == "updateDesc" && g.Signature.Recv() != nil && core.NamedOf(g.Signature.Recv().Type()) == im.t {
 						return true
 					}
 				}
@@ -160,7 +160,7 @@ func c02R1R2(p *core.Prog, r *core.Report) {
 			if len(muts) == 0 && !isSetter {
 				continue
 			}
-			if fn.Name() == "updateDesc" {
+			if canon(fn) == "updateDesc" {
 				continue
 			}
 			bad := ""
@@ -217,7 +217,7 @@ func c02R1R2(p *core.Prog, r *core.Report) {
 			var rawStore *ssa.Store
 			storeFn := fn
 			scope := map[*ssa.Function]bool{fn: true}
-			if fn.Name() == "updateDesc" {
+			if canon(fn) == "updateDesc" {
 				scope = core.Helpers(fn, 2) // the store may live in a helper shared by the implementations
 			}
 			for _, sf := range sortedFuncs(scope) {
@@ -232,7 +232,7 @@ func c02R1R2(p *core.Prog, r *core.Report) {
 				}
 			}
 			if rawStore == nil {
-				if fn.Name() == "updateDesc" {
+				if canon(fn) == "updateDesc" {
 					r.Violated("C02.R2", p.FuncName(fn), "coherent resync", p.Pos(fn.Pos()), "the re-synchronisation no longer stores the raw body: after an edit the manifest keeps pushing its old bytes under a new digest")
 				}
 				continue
@@ -338,7 +338,7 @@ func c02R3(p *core.Prog, r *core.Report) {
 				return false
 			}
 			g := core.CalleeFn(c)
-			return g != nil && g.Name() == "verifyMT"
+			return g != nil && canon(g) == "verifyMT"
 		}
 		// the check written in place: a comparison of the descriptor's media type with the one the
 		// body declares (both strings), whose "differ" edge leaves with an error; passing the
